@@ -210,6 +210,71 @@ def history_case(args):
     return out
 
 
+# -- two plain helpers with byte-identical source in two modules (their globals differ) ---------------------------------
+TWIN_HELPER = "FACTOR = %d\n\n\ndef convert(x):\n    return x * FACTOR\n"
+TWIN_APP = ("import sys\nimport twosigma.memento as m\nfrom .%s import convert\n\n\n@m.memento_function\ndef report(x):\n"
+            "    sys.audit('vf.body', 'report', x)\n    return convert(x)\n")
+
+
+def _twin_child(root, store, hist, write):
+    import importlib
+    import sys
+
+    from .. import audit
+
+    audit.install()
+    farm.set_env(store)
+    if write:
+        os.makedirs(os.path.join(root, "vft"), exist_ok=True)
+        open(os.path.join(root, "vft", "__init__.py"), "w").close()
+        open(os.path.join(root, "vft", "metric.py"), "w").write(TWIN_HELPER % 1000)
+        open(os.path.join(root, "vft", "imperial.py"), "w").write(TWIN_HELPER % 5280)
+        open(os.path.join(root, "vft", "app.py"), "w").write(TWIN_APP % write)
+    sys.path.insert(0, root)
+    app = importlib.import_module("vft.app")
+    mods = {"metric": importlib.import_module("vft.metric"), "imperial": importlib.import_module("vft.imperial")}
+    out = []
+    for ev in hist:
+        if ev in mods:
+            app.convert = mods[ev].convert  # the call edge is re-pointed in the running process
+        try:
+            out.append((ev, app.report(10)))
+        except Exception as e:
+            out.append((ev, "EXC:%s" % type(e).__name__))
+    return out
+
+
+def twin_case(hist):
+    """report() calls `convert`, a module-level name bound to metric.convert or imperial.convert - same source text, other
+    module globals. The name is re-pointed in the running process (events) or in the text between two processes."""
+    top = scratch_dir("c01t")
+    out = {"evaluations": 1, "transitions": len(hist), "traces": 1, "states": len(hist), "violations": [], "outcomes": ["twin|%s" % (hist,)]}
+    want = {"metric": 10000, "imperial": 52800}
+    try:
+        store = os.path.join(top, "store")
+        try:
+            if hist[0] == "xproc":  # one process per edition of app.py
+                res, cur = [], None
+                for k, ev in enumerate(hist[1:]):
+                    r = farm.fork_call(_twin_child, os.path.join(top, "x"), store, ("call",), ev)
+                    res.append((ev, r[0][1]))
+            else:
+                res = farm.fork_call(_twin_child, os.path.join(top, "i"), store, tuple(hist), "metric")
+        except farm.ChildFailed as e:
+            raise HarnessError("twin-helper child failed for %s: %s" % (hist, e))
+        cur = "metric"
+        for ev, got in res:
+            cur = ev if ev in want else cur
+            if got != want[cur] and got != "EXC:UndeclaredDependencyError":
+                out["violations"].append(("twin-helpers|%s|stale" % ("xproc" if hist[0] == "xproc" else "inproc"),
+                                          "report(10) returned %r while `convert` is %s.convert (un-memoized: %d)\nhistory: %s" % (got, cur, want[cur], list(hist)),
+                                          {"twin": list(hist)}))
+                break
+    finally:
+        rm(top)
+    return out
+
+
 def run(ctx):
     thorough = ctx.tier == "thorough"
     L = 2 if thorough else 1
@@ -250,6 +315,11 @@ def run(ctx):
         random.Random(ctx.seed).shuffle(tasks)
     res = pmap(history_case, tasks, chunksize=4)
     ctx.merge(res)
+    tw = [h for n_ in (1, 2, 3) for h in itertools.product(("call", "metric", "imperial"), repeat=n_)] + \
+         [("xproc",) + h for n_ in (2, 3) for h in itertools.product(("metric", "imperial"), repeat=n_)]
+    ctx.merge(pmap(twin_case, tw, chunksize=4))
+    ctx.rule += (" Plus: a module-level name re-pointed between two plain helpers with byte-identical source in two modules (other globals), all event "
+                 "sequences to length 3 in one process and all editions sequences to length 3 across processes.")
     stats = {}
     for r in res:
         for k, v in r.get("stats", {}).items():
@@ -262,6 +332,12 @@ def run(ctx):
 
 
 def replay(ctx, art):
+    if "twin" in art["artefact"]:
+        r = twin_case(tuple(art["artefact"]["twin"]))
+        for v in r["violations"]:
+            print(v[0], "\n", v[1])
+        print("REPLAY property=C01 result=%s" % bool(r["violations"]))
+        return 1 if r["violations"] else 0
     a = art["artefact"]
     r = history_case((a["program"], tuple(tuple(s) for s in a["sites"]), a["delivery"], a.get("tier", "quick")))
     for v in r["violations"]:
